@@ -51,6 +51,7 @@ class Sim:
         self.out = []  # (time, kind, payload...)
         self.client = None
         self.malformed_emits = []
+        self.rejected = []      # strikes the server refused (claimed stroke != the bell's stroke)
         for t, ev in scenario["events"]:
             self.push(frac(t), ev)
 
@@ -96,6 +97,8 @@ class Sim:
             if not isinstance(bell, int) or isinstance(bell, bool) or not isinstance(hand, bool):
                 self.malformed_emits.append((event, data))
                 return
+            if not (1 <= bell <= len(self.server) and self.server[bell - 1] == hand):
+                self.rejected.append((str(self.now), bell, bool(hand)))
             if 1 <= bell <= len(self.server) and self.server[bell - 1] == hand:
                 self.server[bell - 1] = not hand
                 self.push(self.now + self.delta, ("msg", "s_bell_rung",
@@ -262,7 +265,7 @@ def run_scenario(sc, build_generator, inspect=None):
         except Exception as e:  # pylint: disable=broad-except
             outcome = ["crashed", coqfmt.exn_kind(e), type(e).__name__, str(sim.now)]
         res = {"trace": [[str(t)] + list(rest) for (t, *rest) in sim.out], "outcome": outcome,
-               "malformed": len(sim.malformed_emits), "end": str(sim.now),
+               "malformed": len(sim.malformed_emits), "end": str(sim.now), "rejected": sim.rejected,
                "client_log": [(k, e) for (k, e, _d) in sim.client.log[:16]] if sim.client else []}
         if inspect is not None:
             res["inspect"] = inspect(bot, tower, rhythm, sim)
